@@ -158,6 +158,9 @@ def gen_family(rng):
     suba = classes[-2]["params"]
     classes.append({"name": "SubC", "bases": ["SubA"], "abstract": False, "kwargs": False, "params": derive(suba, names[6:6 + rng.randint(0, 1)])})
     classes.append({"name": "SubKW", "bases": ["Base"], "abstract": False, "kwargs": True, "params": [dict(p) for p in base_params]})
+    # a second **kwargs class with a real parameter `retries` (a dict_kwargs key of SubKW can be a real parameter here)
+    classes.append({"name": "SubKW2", "bases": ["Base"], "abstract": False, "kwargs": True,
+                    "params": [dict(p) for p in base_params] + [P("retries", ("scalar", "int"), rng.choice([1, 2, 3]))]})
     classes.append({"name": "Unrel", "bases": [], "abstract": False, "kwargs": False, "params": [dict(p) for p in base_params]})
     classes.append({"name": "Owner", "bases": [], "abstract": False, "kwargs": False,
                     "params": [P("dep", ("cls", "Base")), P("count", ("scalar", "int"), rng.choice(SCALARS["int"]))]})
@@ -509,6 +512,9 @@ def split_raw(raw):
     raise Reject("notSpec")
 
 
+STALE_DK = [False]      # True: compute what the open finding C14-stale-dict-kwargs describes instead of the property
+
+
 def ref_apply(fam, T, state, raw):
     cp, ia, dk = split_raw(raw)
     abstract_T = cls_of(fam, T)["abstract"]
@@ -529,7 +535,9 @@ def ref_apply(fam, T, state, raw):
             if q and value_fits(fam, q, v):
                 # a kept scalar is what the new class's type makes of it (an int kept for a float parameter is a float)
                 kept[k] = scalar_conv(q["ty"][1], v) if q["ty"][0] in ("scalar", "optScalar") and v is not None else v
-        kept_dk = {}                      # the property: nothing of the old class that the new one does not accept survives
+        # the property: nothing of the old class that the new one does not accept survives.  The open finding: the old
+        # dict_kwargs stay when the source that changes the class carries none of its own
+        kept_dk = dict(state["dk"]) if STALE_DK[0] and not any(not param_of(params, k) for k in (dk or {})) else {}
     else:
         kept = dict(state["ia"]) if state else {}
         kept_dk = dict(state["dk"]) if state else {}
@@ -603,8 +611,17 @@ def ref_step(fam, T, state, s):
     return ref_apply(fam, T, state, s["raw"])
 
 
-def reference(fam, T, sources):
-    """('ok', final state | None) or ('reject', category)"""
+def reference(fam, T, sources, stale_dk=False):
+    """('ok', final state | None) or ('reject', category); stale_dk: the behaviour of the open finding C14-stale-dict-kwargs"""
+    old = STALE_DK[0]
+    STALE_DK[0] = stale_dk
+    try:
+        return _reference(fam, T, sources)
+    finally:
+        STALE_DK[0] = old
+
+
+def _reference(fam, T, sources):
     state = None
     try:
         for s in sources:
@@ -997,6 +1014,35 @@ def inject_fault(rng, fam, T, state, fault):
     return None
 
 
+def dk_change_cases(rng, fam):
+    """class changes between the two **kwargs classes where BOTH sources carry dict_kwargs: disjoint keys, overlapping keys,
+    a key of the first that is a real parameter of the second; the new spec must hold only its own dict_kwargs"""
+    out = []
+    if not (cls_of(fam, "SubKW") and cls_of(fam, "SubKW2")):
+        return out
+    for T, wrap in (("Base", False), ("Owner", True)):
+        for a, b in (("SubKW", "SubKW2"), ("SubKW2", "SubKW")):
+            variants = [({"extra": 1, "zz": "q"}, {"other": 5}), ({"extra": 1}, {"extra": 7, "other": 2}),
+                        ({"retries": 9, "extra": 1}, {"zz": 2}), ({"extra": 1}, {"retries": 4, "zz": 2})]
+            dk1, dk2 = rng.choice(variants)
+            ia1 = gen_ia(rng, fam, a)
+            ia2 = gen_ia(rng, fam, b)
+            r1 = {"cp": name_notation(rng, fam, "Base", a), "ia": ia1, "dk": dk1}
+            r2 = {"cp": name_notation(rng, fam, "Base", b), "ia": ia2, "dk": dk2}
+            if wrap:
+                sq = [{"form": "value", "raw": {"bare": {"dep": r1}}, "via": rng.choice(["argv", "config"])},
+                      {"form": "value", "raw": {"bare": {"dep": r2}}, "via": rng.choice(["argv", "config"])}]
+            else:
+                sq = [{"form": "value", "raw": r1, "via": rng.choice(["argv", "config", "file"])},
+                      {"form": "value", "raw": r2, "via": rng.choice(["argv", "config"])}]
+            if rng.random() < 0.4:
+                # a third source of the same class merges its dict_kwargs over the second's
+                r3 = {"cp": None, "ia": None, "dk": {"late": 3}}
+                sq.append({"form": "value", "raw": {"bare": {"dep": r3}} if wrap else r3, "via": "argv"})
+            out.append((fam, T, sq))
+    return out
+
+
 def none_carry_cases(rng, fam):
     """class changes X -> Y where a parameter is Optional[T] in X and plain T in Y and the value carried from X is None
     (explicit null through a dotted option, through a config, or the completed default of the argument)"""
@@ -1090,20 +1136,13 @@ FAULTS = ["wrong-class", "non-class", "missing-import", "unknown-key", "ill-type
 
 
 def has_dk_before_change(fam, T, sources):
-    """finding class: a source with dict_kwargs followed by a class change (at any nesting level)"""
-    state = None
-    had_dk = False
+    """finding class C14-stale-dict-kwargs: the sequences whose outcome the finding changes, i.e. an earlier source set
+    dict_kwargs and a later source changes the class WITHOUT dict_kwargs of its own (at any nesting level).  A class
+    change whose source carries its own dict_kwargs is NOT in the class: it is judged against the property."""
     try:
-        for s in sources:
-            prev = json.dumps(state_classes(state), sort_keys=True)
-            state = ref_step(fam, T, state, s)
-            now = state_classes(state)
-            if had_dk and json.dumps(now, sort_keys=True) != prev:
-                return True
-            had_dk = had_dk or state_has_dk(state)
-    except Reject:
-        pass
-    return False
+        return json.dumps(reference(fam, T, sources), sort_keys=True, default=repr) != json.dumps(reference(fam, T, sources, stale_dk=True), sort_keys=True, default=repr)
+    except Exception:  # noqa: BLE001
+        return False
 
 
 def state_classes(st):
@@ -1121,9 +1160,9 @@ def state_has_dk(st):
 # ---------------------------------------------------------------------------------------------
 # evaluation
 # ---------------------------------------------------------------------------------------------
-def oracle(fam, T, sources, real):
-    """the property on the real code; returns a description or None"""
-    exp = reference(fam, T, sources)
+def oracle(fam, T, sources, real, stale_dk=False):
+    """the property on the real code; returns a description or None (stale_dk: judge against the finding's behaviour)"""
+    exp = reference(fam, T, sources, stale_dk)
     if real["kind"] not in ("ok", "reject"):
         return "parsing neither succeeds nor raises ArgumentError: %s %s" % (real["kind"], real.get("msg", ""))
     if real["kind"] == "ok" and real.get("cfg") is not None:
@@ -1247,7 +1286,8 @@ def run_cases(ctx: Ctx, cases, origin):
         clash = any(p["name"] in CLASH_NAMES for c in fam["classes"] for p in c["params"])
         dev = oracle(fam, T, sources, real)
         if dev is not None:
-            if finding and ctx.is_open(F_STALE_DK):
+            if finding and ctx.is_open(F_STALE_DK) and oracle(fam, T, sources, real, stale_dk=True) is None:
+                # exactly what the finding describes (and nothing else)
                 ctx.known(F_STALE_DK, "%s (argv %s)" % (dev[:200], json.dumps(argv)[:160]))
             elif clash and ctx.is_open(F_CLASH):
                 ctx.known(F_CLASH, "%s (argv %s)" % (dev[:200], json.dumps(argv)[:160]))
@@ -1745,6 +1785,12 @@ def run(ctx: Ctx):
             n_carry += len(nc)
             cases.extend(nc)
         ctx.extra["none_carried_across_class_change_cases"] = n_carry
+        n_dk = 0
+        for fam in fams:
+            dc = dk_change_cases(ctx.rng, fam)
+            n_dk += len(dc)
+            cases.extend(dc)
+        ctx.extra["class_change_with_dict_kwargs_on_both_sides_cases"] = n_dk
         for fam, T, src in cases[:3]:
             ctx.sample({"declared": T, "argv": build_argv(fam, src)})
         bad += run_cases(ctx, cases, "generated")
